@@ -1,7 +1,9 @@
 (* C12 — point-format conversion preserves shared dimensions or fails loudly.
    `convert l tgt ver` (Model/Convert.v) for every source object l: any of the 11 standard formats, any number of points
-   with any contents, any extra dimensions (duplicate-free names), any VLR / EVLR lists; any target format and any
-   explicit or implicit target version. `da`, `db` are the defaults of `nth`, irrelevant below the length. *)
+   with any contents, any extra dimensions under ANY names that numpy accepts next to the packed fields of the source format
+   (`wf_las`: the field names of the source record are pairwise distinct - names of standard dimensions of other formats, of
+   bit-packed sub-fields, legacy aliases, "x" ... are all allowed), any VLR / EVLR lists; any target format and any explicit
+   or implicit target version. `da`, `db` are the defaults of `nth`, irrelevant below the length. *)
 From Coq Require Import String.
 From Coq Require Import ZArith List Bool.
 From LasV Require Import Lib.Base Gen.GenDims Model.SubField Model.HeaderOps Model.Convert Proofs.ConvertProofs.
@@ -31,7 +33,8 @@ Theorem C12_common_dims : forall l tgt ver l' i n da db, convert l tgt ver = Ok 
 Proof. exact convert_dims. Qed.
 Print Assumptions C12_common_dims.
 
-(* extra dimensions: descriptors (name, type, scale/offset, description) and the raw bytes of every point *)
+(* extra dimensions: descriptors (name, type, scale/offset, description) and the raw bytes of every point, whatever their
+   names (a name that is also a standard dimension or sub-field of the source or target format included) *)
 Theorem C12_extra_dims : forall l tgt ver l', convert l tgt ver = Ok l' -> wf_las l ->
   l_edims l' = l_edims l
   /\ forall i da db, (i < length (l_pts l))%nat -> snd (nth i (l_pts l') db) = snd (nth i (l_pts l) da).
@@ -77,21 +80,66 @@ Print Assumptions C12_incompatible_request.
    the field's maximum (classification 32..255 into 5 bits, return number / number of returns 8..15 into 3 bits):
    OverflowError, no result *)
 Theorem C12_narrowing_raises : forall l tgt ver hs i d n v c m, wf_las l ->
-  hstep (mkHS (l_ver l) (l_fmt l)) (HConvert tgt ver) = Ok hs -> (i < length (l_pts l))%nat ->
+  hstep (mkHS (l_ver l) (l_fmt l)) (HConvert tgt ver) = Ok hs -> ~ name_clash (hs_f hs) (l_edims l) ->
+  (i < length (l_pts l))%nat ->
   In n (dim_names (hs_f hs)) -> dim_val (l_fmt l) (fst (nth i (l_pts l) d)) n = Some v ->
   sub_of (hs_f hs) n = Some (c, m) -> (v > sf_max m \/ v < 0) -> convert l tgt ver = Err EOverflow.
 Proof. exact convert_narrowing. Qed.
 Print Assumptions C12_narrowing_raises.
 
-(* ... and that is the only way a conversion with an acceptable version fails; with C12_common_dims: never truncation *)
+(* ... with a name clash the ValueError comes first: in no case is a value that does not fit answered by a result *)
+Theorem C12_never_truncates : forall l tgt ver hs i d n v c m, wf_las l ->
+  hstep (mkHS (l_ver l) (l_fmt l)) (HConvert tgt ver) = Ok hs -> (i < length (l_pts l))%nat ->
+  In n (dim_names (hs_f hs)) -> dim_val (l_fmt l) (fst (nth i (l_pts l) d)) n = Some v ->
+  sub_of (hs_f hs) n = Some (c, m) -> (v > sf_max m \/ v < 0) ->
+  convert l tgt ver = Err EOverflow \/ convert l tgt ver = Err EValue.
+Proof. exact convert_never_truncates. Qed.
+Print Assumptions C12_never_truncates.
+
+(* name clash: an extra dimension named like a packed field of the TARGET format (e.g. "nir" next to format 8, "gps_time"
+   next to format 1, "classification" next to format 6) cannot be stored next to it: ValueError, no result - never a
+   result without the extra dimension, never its values stored in the standard field. This is the only source of ValueError. *)
+Theorem C12_name_clash_refused : forall l tgt ver hs e, wf_las l -> hstep (mkHS (l_ver l) (l_fmt l)) (HConvert tgt ver) = Ok hs ->
+  In e (l_edims l) -> In (ed_name e) (storage_names (hs_f hs)) -> convert l tgt ver = Err EValue.
+Proof. exact convert_clash_refused. Qed.
+Print Assumptions C12_name_clash_refused.
+
+Theorem C12_value_error_iff : forall l tgt ver hs, wf_las l -> hstep (mkHS (l_ver l) (l_fmt l)) (HConvert tgt ver) = Ok hs ->
+  (convert l tgt ver = Err EValue <-> name_clash (hs_f hs) (l_edims l)).
+Proof. exact convert_value_error_iff. Qed.
+Print Assumptions C12_value_error_iff.
+
+(* the three-way outcome once the version rule accepted the request *)
+Theorem C12_outcome : forall l tgt ver hs, wf_las l -> hstep (mkHS (l_ver l) (l_fmt l)) (HConvert tgt ver) = Ok hs ->
+  (name_clash (hs_f hs) (l_edims l) /\ convert l tgt ver = Err EValue)
+  \/ (~ name_clash (hs_f hs) (l_edims l)
+      /\ ((exists l', convert l tgt ver = Ok l' /\ forall p, In p (l_pts l) -> ~ point_misfit (l_fmt l) (hs_f hs) p)
+          \/ (convert l tgt ver = Err EOverflow /\ exists p, In p (l_pts l) /\ point_misfit (l_fmt l) (hs_f hs) p))).
+Proof. exact convert_outcome. Qed.
+Print Assumptions C12_outcome.
+
+(* the result is a well-formed object again (no repeated field name, every point complete): conversions compose *)
+Theorem C12_result_wf : forall l tgt ver l', convert l tgt ver = Ok l' -> wf_las l -> wf_las l'.
+Proof. exact convert_wf. Qed.
+Print Assumptions C12_result_wf.
+
+(* point-wise: point i of the result is the conversion of point i of the source alone, whatever the size of the record
+   (no block of points is treated differently from another) *)
+Theorem C12_pointwise : forall l tgt ver l' i, convert l tgt ver = Ok l' -> (i < length (l_pts l))%nat ->
+  forall da db, convert_point (l_fmt l) (l_fmt l') (l_edims l) (nth i (l_pts l) da) = Ok (nth i (l_pts l') db).
+Proof. exact convert_point_at. Qed.
+Print Assumptions C12_pointwise.
+
+(* ... and these are the only ways a conversion with an acceptable version fails; with C12_common_dims: never truncation *)
 Theorem C12_fits_succeeds : forall l tgt ver hs, wf_las l -> hstep (mkHS (l_ver l) (l_fmt l)) (HConvert tgt ver) = Ok hs ->
+  (forall e, In e (l_edims l) -> ~ In (ed_name e) (storage_names (hs_f hs))) ->
   (forall p n v c m, In p (l_pts l) -> In n (dim_names (hs_f hs)) -> dim_val (l_fmt l) (fst p) n = Some v ->
      sub_of (hs_f hs) n = Some (c, m) -> 0 <= v <= sf_max m) ->
   exists l', convert l tgt ver = Ok l'.
 Proof. exact convert_fits. Qed.
 Print Assumptions C12_fits_succeeds.
 
-Theorem C12_errors : forall l tgt ver e, wf_las l -> convert l tgt ver = Err e -> e = ELaspy \/ e = EOverflow.
+Theorem C12_errors : forall l tgt ver e, wf_las l -> convert l tgt ver = Err e -> e = ELaspy \/ e = EValue \/ e = EOverflow.
 Proof. exact convert_errors. Qed.
 Print Assumptions C12_errors.
 
@@ -121,6 +169,13 @@ Definition ex_src : lasdata :=
 Definition ex_bad : lasdata :=
   mkLas (1, 4) 6 [] [ (map (fun n => (n, if String.eqb n "classification" then 32 else 0)) (storage_names 6), []) ] [] None.
 
+(* format 0 with extra dimensions named like a sub-field of the target ("overlap"), a legacy alias ("pt_src_id"), a
+   sub-field of both ("synthetic"), a scaled coordinate ("x"), a standard dimension of another format ("nir") *)
+Definition ex_names : lasdata :=
+  mkLas (1, 2) 0 [mkED "overlap" [1] 1; mkED "pt_src_id" [2] 1; mkED "synthetic" [3] 1; mkED "x" [4] 1; mkED "nir" [5] 4]
+    [ (map (fun n => (n, if String.eqb n "raw_classification" then 37 else 0)) (storage_names 0), [[1]; [2]; [3]; [4]; [5; 6; 7; 8]]) ]
+    [] None.
+
 Example C12_nonvacuous :
   convert ex_src (Some 1) None =
     Ok (mkLas (1, 4) 1 [mkED "e" [1; 2] 2]
@@ -131,8 +186,15 @@ Example C12_nonvacuous :
   /\ convert ex_src (Some 1) (Some (1, 2)) <> convert ex_src (Some 1) None
   /\ convert ex_src (Some 6) (Some (1, 3)) = Err ELaspy
   /\ convert ex_bad (Some 0) None = Err EOverflow
+  /\ (exists l', convert ex_names (Some 7) None = Ok l' /\ l_edims l' = l_edims ex_names
+        /\ map snd (l_pts l') = [[[1]; [2]; [3]; [4]; [5; 6; 7; 8]]]
+        /\ map (fun p => dim_val 7 (fst p) "overlap") (l_pts l') = [Some 0]
+        /\ map (fun p => dim_val 7 (fst p) "classification") (l_pts l') = [Some 5]
+        /\ map (fun p => dim_val 7 (fst p) "synthetic") (l_pts l') = [Some 1])
+  /\ convert ex_names (Some 8) None = Err EValue /\ convert ex_names (Some 10) (Some (1, 4)) = Err EValue
+  /\ convert ex_names (Some 8) (Some (1, 2)) = Err ELaspy
   /\ (exists l', convert ex_bad (Some 7) None = Ok l')
   /\ lost 6 0 = ["overlap"%string; "scanner_channel"%string; "scan_angle"%string; "gps_time"%string]
   /\ sub_of 0 "classification" = Some ("raw_classification"%string, 31) /\ sf_max 31 = 31 /\ sub_of 6 "classification" = None
   /\ sub_of 0 "return_number" = Some ("bit_fields"%string, 7) /\ sf_max 7 = 7 /\ sub_of 6 "return_number" = Some ("bit_fields"%string, 15).
-Proof. vm_compute. repeat split; try reflexivity; try discriminate. eexists; reflexivity. Qed.
+Proof. vm_compute. repeat split; try reflexivity; try discriminate; eexists; repeat split; reflexivity. Qed.
